@@ -168,6 +168,113 @@ def replay(gs, cls, beh, origin):
     return [], []
 
 
+def random_executions(gs, cls, rng, n_exec, n_ops, max_calls):
+    """Random operations on a real object (no TLC involved); one logged event per public call."""
+    events = []
+
+    def ident(r, arr):
+        b = np.asarray(arr).tobytes()
+        hit = [i for i, (_a, snap) in r.out.items() if snap == b]
+        return hit[-1] if hit else -1
+
+    for _x in range(n_exec):
+        r = Real(gs, cls)
+        events.append({"name": "Init"})
+        ncall, pos = 0, 0
+        for _i in range(n_ops):
+            k = rng.choice(["Call", "Call", "Call", "SetPos", "Delete", "DeleteIdx", "DeleteIdxList", "Read", "Read", "Transform", "Transform"])
+            stored = list(r.o.field_names)
+            if k in ("Call", "Transform") and ncall >= max_calls:
+                continue
+            if k == "Call":
+                p = rng.choice([KEEP, 1, 2, 3]) if pos else rng.choice([1, 2, 3])
+                op = {"name": k, "p": p, "st": rng.choice(GOOD + GOOD + ["none"] + BAD), "id": ncall + 1}
+            elif k == "SetPos":
+                op = {"name": k, "p": rng.choice([1, 2, 3])}
+            elif k == "Delete":
+                form = rng.choice(["all", "sel", "sel"])
+                op = {"name": k, "form": form, "sel": [] if form == "all" else rng.choice([[a] for a in GOOD] + [[a, b] for a in GOOD for b in GOOD])}
+            elif k in ("DeleteIdx", "DeleteIdxList"):
+                op = {"name": k, "i": rng.choice([0, 1, 2])}
+            elif k == "Read":
+                form = rng.choice(["name", "list", "idx", "all"])
+                sel = {"name": [rng.choice(GOOD)], "list": [rng.choice(GOOD), rng.choice(GOOD)]}.get(form, [])
+                op = {"name": k, "form": form, "sel": sel, "i": rng.choice([0, 1, 2]) if form == "idx" else 0}
+            else:
+                op = {"name": k, "src": rng.choice(stored + GOOD), "st": rng.choice(GOOD + ["same", "same", "none"] + BAD), "id": ncall + 1}
+            with warnings.catch_warnings():
+                warnings.simplefilter("ignore")
+                raised, ans = r.apply(op)
+            if k == "Call" or (k == "Transform" and raised is None):
+                ncall += 1
+            ptok = 0
+            if r.o.pos is not None:
+                for t in (1, 2, 3):
+                    pp, mesh = positions(t)
+                    if r.o.mesh_type == mesh and all(np.array_equal(a, b) for a, b in zip(r.o.pos, pp)):
+                        ptok = t
+            pos = ptok
+            ev = dict(op, raised=raised is not None, pos=ptok, names=[str(n) for n in r.o.field_names],
+                      val={g: (ident(r, r.o[g]) if g in r.o.field_names else 0) for g in GOOD})
+            if k == "Read":
+                ev["ans"] = [ident(r, a) for a in ans] if raised is None else []
+            events.append(ev)
+    return events
+
+
+def trace_validation(rep, sc, tier, rng, gs):
+    import json
+
+    n_exec, n_ops = (60, 25) if tier == "quick" else (600, 40)
+    jobs, meta = [], {}
+    for cls in ("SRF", "Field"):
+        evs = random_executions(gs, cls, rng, n_exec, n_ops, 12)
+        fn = sc.write("fstrace_%s.json" % cls, json.dumps(evs))
+        name = "TR_fs_" + cls
+        mod, cfg = mc_text(name, "full")
+        sc.write(name + ".tla", mod.replace("EXTENDS FieldStore", "EXTENDS TraceFieldStore"))
+        cfgt = (cfg.replace("MaxCalls = 4", "MaxCalls = 12").replace("INIT Init\nNEXT Next\n", "")
+                + "SPECIFICATION TraceSpec\nINVARIANT TraceMatches\nINVARIANT NotStuck\nPOSTCONDITION TraceAccepted\nCHECK_DEADLOCK FALSE\n")
+        jobs.append((cls, sc, name, cfgt, dict(workers=1, timeout=1800, env={"TRACE_FILE": fn})))
+        meta[cls] = evs
+    evs0 = json.loads(json.dumps(meta["SRF"]))
+    k = next(i for i in range(len(evs0) // 2, len(evs0)) if evs0[i]["name"] == "Call" and not evs0[i]["raised"] and evs0[i]["st"] != "none")
+    evs0[k]["val"][evs0[k]["st"]] -= 1          # another call's result under the name just stored
+    fn0 = sc.write("fstrace_corrupt.json", json.dumps(evs0))
+    jobs.append(("__corrupt__", sc, jobs[0][2], jobs[0][3], dict(workers=1, timeout=1800, env={"TRACE_FILE": fn0})))
+    res = tlc.run_many(jobs, parallel=3)
+    rc = res.pop("__corrupt__")
+    tlc.must_pass(rc, "corrupted trace")
+    if rc.error is None:
+        raise tlc.MachineryError("binding not demonstrated: a corrupted FieldStore trace was accepted")
+    n_ev = n_bad = 0
+    for cls, r in sorted(res.items()):
+        evs = meta[cls]
+        tlc.must_pass(r, "trace " + cls)
+        rep.add_tlc("TraceFieldStore[%s]" % cls, r)
+        n_ev += len(evs)
+        if r.error:
+            n_bad += 1
+            tr = tlc.error_trace(r)
+            l = tr[-1]["state"].get("l", 0) if tr else 0
+            idx = max(0, l - 2)
+            e = evs[idx] if idx < len(evs) else {}
+            stv = tr[-1]["state"] if tr else {}
+            # a stored result that is not the one the machine names is property level, the rest is drift
+            lost = [g for g in GOOD if stv.get("val", {}).get(g, 0) not in (0, e.get("val", {}).get(g))]
+            msg = ("recorded %s execution is not explained by FieldStore.tla at event #%d %s (%s): the machine has names %s, val %s, status %s"
+                   % (cls, idx, e, r.error[1], stv.get("names"), stv.get("val"), stv.get("status")))
+            if lost and r.error[1] == "TraceMatches":
+                rep.violation("store:%s:trace:stored-result:%s" % (cls, e.get("name")), msg, {"events": evs[max(0, idx - 8): idx + 1]})
+            else:
+                rep.drift_msg(msg)
+    rep.traces += 2 * n_exec
+    rep.extra["field_store_trace_validation"] = {
+        "executions": 2 * n_exec, "events": n_ev, "rejected_batches": n_bad,
+        "observable": "position token, field_names, and per stored name the number of the call whose result it holds (by content)",
+        "binding_demonstration": "a recorded execution with one corrupted provenance number is rejected: %s %s" % rc.error}
+
+
 def _work(job):
     cls, behs = job
     warnings.simplefilter("ignore")
@@ -255,6 +362,7 @@ def run_part(rep, tier, rng):
         with warnings.catch_warnings():
             warnings.simplefilter("ignore")
             n_sc, bad_sc = store_config_cases(gs, sc.path("sc.dump"))
+        trace_validation(rep, sc, tier, rng, gs)
     # binding demonstration: a behaviour whose expectation is corrupted (another call's result expected under a
     # stored name) must be rejected by the replay
     import copy
